@@ -493,7 +493,7 @@ func c17Behaviour(c *Ctx, d *c17Dump, x *c17M) {
 		// trim (accept / enctype / formenctype are additionally normalised as media types by the code: skipped)
 		in = "<span " + name + "=\"a1  b1\">"
 		if name == "accept" || name == "enctype" || name == "formenctype" {
-			c.R.ExcludedKnown += 0
+			st.Tag("attr.trimAttr probe skipped (media type normalisation)")
 		} else if out, ok := run("text/html", in); ok {
 			got := strings.Contains(out, "a1 b1")
 			want := c17Has(traits, "trimAttr") && !c17Has(traits, "booleanAttr")
@@ -609,23 +609,23 @@ func c17EntityCase(c *Ctx, st *h.Stage, x *c17M, ref, suf string, attr bool, wha
 		vi, fi := c17Attr(in, "a", "title")
 		vo, fo := c17Attr(out, "a", "title")
 		if !fi || !fo || vi != vo {
-			c.R.Add(h.Finding{Stage: st.Name, Kind: "fail", What: what + ": attribute value decodes differently after minification (golang.org/x/net/html)",
-				Input: strconv.Quote(in), Impl: strconv.Quote(out), Model: fmt.Sprintf("value before %q, after %q", vi, vo)})
+			c.R.Add(h.Finding{Stage: st.Name, Kind: "fail", What: what + ": decodes to different text after minification",
+				Input: strconv.Quote(in), Impl: strconv.Quote(out), Model: fmt.Sprintf("golang.org/x/net/html: attribute value before %q, after %q", vi, vo)})
 		}
 	} else {
 		ti, _ := c17Text(in)
 		to, _ := c17Text(out)
 		if c17Ws(ti) != c17Ws(to) {
-			c.R.Add(h.Finding{Stage: st.Name, Kind: "fail", What: what + ": text decodes differently after minification (golang.org/x/net/html)",
-				Input: strconv.Quote(in), Impl: strconv.Quote(out), Model: fmt.Sprintf("text before %q, after %q", ti, to)})
+			c.R.Add(h.Finding{Stage: st.Name, Kind: "fail", What: what + ": decodes to different text after minification",
+				Input: strconv.Quote(in), Impl: strconv.Quote(out), Model: fmt.Sprintf("golang.org/x/net/html: text before %q, after %q", ti, to)})
 		}
 		// second oracle on the raw text between the tags (no markup inside for these suffixes)
 		if !strings.Contains(suf, "<") {
 			ri := strings.TrimSuffix(strings.TrimPrefix(in, "<p>"), "</p>")
 			ro := strings.TrimSuffix(strings.TrimPrefix(out, "<p>"), "</p>")
 			if c17Ws(stdhtml.UnescapeString(ri)) != c17Ws(stdhtml.UnescapeString(ro)) {
-				c.R.Add(h.Finding{Stage: st.Name, Kind: "fail", What: what + ": text decodes differently after minification (html.UnescapeString)",
-					Input: strconv.Quote(in), Impl: strconv.Quote(out)})
+				c.R.Add(h.Finding{Stage: st.Name, Kind: "fail", What: what + ": decodes to different text after minification",
+					Input: strconv.Quote(in), Impl: strconv.Quote(out), Model: "html.UnescapeString of the text before and after differ"})
 			}
 		}
 	}
@@ -645,8 +645,8 @@ func c17Entities(c *Ctx, d *c17Dump, x *c17M) {
 		// the row itself, judged directly (independent of the minifier's control flow)
 		ref := "&" + n + ";"
 		if stdhtml.UnescapeString(ref) != stdhtml.UnescapeString(repl) {
-			c.R.Add(h.Finding{Stage: st.Name, Kind: "fail", What: "html.EntitiesMap[" + n + "]: replacement decodes to different text than the reference (html.UnescapeString)",
-				Input: strconv.Quote("<p>" + ref + "</p>"), Impl: strconv.Quote(repl)})
+			c.R.Add(h.Finding{Stage: st.Name, Kind: "fail", What: "html.EntitiesMap[" + n + "]: decodes to different text after minification",
+				Input: strconv.Quote("<p>" + ref + "</p>"), Impl: strconv.Quote(repl), Model: "html.UnescapeString of the reference and of its replacement differ"})
 		}
 		crash := h.Safely(30*time.Second, func() {
 			for _, suf := range c17Suffixes {
@@ -780,7 +780,7 @@ func c17Colours(c *Ctx, d *c17Dump, x *c17M) {
 		a, aok := c17Color(d.colors, n)
 		b, bok := c17Color(d.colors, string(v))
 		if !aok || !bok || a != b || len(v) > len(n) {
-			c.R.Add(h.Finding{Stage: st.Name, Kind: "fail", What: fmt.Sprintf("css.ShortenColorName[%s] = %s: not the same colour / not a CSS colour keyword / longer", n, v), Input: strconv.Quote("a{color:" + n + "}"), Impl: string(v)})
+			c.R.Add(h.Finding{Stage: st.Name, Kind: "fail", What: "css colour `" + n + "`: rewritten to a different colour, to something that is not a CSS colour, or to something longer", Model: fmt.Sprintf("css.ShortenColorName[%s] = %s judged by the independent colour table", n, v), Input: strconv.Quote("a{color:" + n + "}"), Impl: string(v)})
 		}
 	}
 	for k, v := range css.ShortenColorHex {
@@ -788,7 +788,7 @@ func c17Colours(c *Ctx, d *c17Dump, x *c17M) {
 		a, aok := c17Color(d.colors, k)
 		b, bok := c17Color(d.colors, string(v))
 		if !aok || !bok || a != b || len(v) > len(k) {
-			c.R.Add(h.Finding{Stage: st.Name, Kind: "fail", What: fmt.Sprintf("css.ShortenColorHex[%s] = %s: not the same colour / not a CSS colour keyword / longer", k, v), Input: strconv.Quote("a{color:" + k + "}"), Impl: string(v)})
+			c.R.Add(h.Finding{Stage: st.Name, Kind: "fail", What: "css colour `" + k + "`: rewritten to a different colour, to something that is not a CSS colour, or to something longer", Model: fmt.Sprintf("css.ShortenColorHex[%s] = %s judged by the independent colour table", k, v), Input: strconv.Quote("a{color:" + k + "}"), Impl: string(v)})
 		}
 	}
 	for n, rgb := range d.colors {
@@ -835,11 +835,11 @@ func c17Colours(c *Ctx, d *c17Dump, x *c17M) {
 				continue
 			}
 			if !gok || got != want {
-				c.R.Add(h.Finding{Stage: st.Name, Kind: "fail", What: mt + ": colour " + v + " denotes a different sRGB colour after minification",
-					Input: strconv.Quote(in), Impl: strconv.Quote(out), Model: fmt.Sprintf("before %v, after %v (known colour: %v)", want, got, gok)})
+				c.R.Add(h.Finding{Stage: st.Name, Kind: "fail", What: "css colour `" + strings.ToLower(v) + "`: rewritten to a different colour, to something that is not a CSS colour, or to something longer",
+					Input: strconv.Quote(in), Impl: strconv.Quote(out), Model: fmt.Sprintf("%s: before %v, after %v (known colour: %v)", mt, want, got, gok)})
 			}
 			if len(ov) > len(v) {
-				c.R.Add(h.Finding{Stage: st.Name, Kind: "fail", What: mt + ": colour value got longer", Input: strconv.Quote(in), Impl: strconv.Quote(out)})
+				c.R.Add(h.Finding{Stage: st.Name, Kind: "fail", What: "css colour `" + strings.ToLower(v) + "`: rewritten to a different colour, to something that is not a CSS colour, or to something longer", Input: strconv.Quote(in), Impl: strconv.Quote(out)})
 			}
 		}
 	}
@@ -1067,14 +1067,18 @@ func c17Search(c *Ctx, d *c17Dump, x *c17M) {
 					b, bok := c17Color(d.colors, ov)
 					switch {
 					case ov == key:
-					case !aok && !strings.HasPrefix(key, "#"):
-						fail("css colour table: `"+key+"` is not a CSS colour keyword but is rewritten to "+ov, in, out, "")
-					case !bok:
-						fail("css colour table: `"+key+"` rewritten to `"+ov+"`, which is not a CSS colour", in, out, "")
-					case aok && a != b:
-						fail("css colour table: `"+key+"` rewritten to a different sRGB colour", in, out, fmt.Sprintf("%v → %v", a, b))
-					case len(ov) > len(key):
-						fail("css colour table: replacement longer than the original", in, out, "")
+					default:
+						w := "css colour `" + key + "`: rewritten to a different colour, to something that is not a CSS colour, or to something longer"
+						switch {
+						case !aok && !strings.HasPrefix(key, "#"):
+							fail(w, in, out, "`"+key+"` is not a CSS colour keyword but is rewritten to "+ov)
+						case !bok:
+							fail(w, in, out, "`"+ov+"` is not a CSS colour")
+						case aok && a != b:
+							fail(w, in, out, fmt.Sprintf("sRGB %v → %v", a, b))
+						case len(ov) > len(key):
+							fail(w, in, out, "replacement longer than the original")
+						}
 					}
 				}
 			case "boolAttrs":
